@@ -77,6 +77,7 @@ var shapes = []string{
 	"exported-struct", "unexported-struct", "generic-struct", "embeds-struct-by-value", "embeds-struct-by-pointer",
 	"only-unexported-fields", "defined-string", "defined-map-slice-func", "interface", "odd-field-types", "embeds-unexported-and-non-struct",
 	"fields-of-generic-instantiations-and-local-named-types",
+	"several-embedded-structs-first-one-documented",
 }
 
 type Prog struct {
@@ -182,6 +183,14 @@ func (p Prog) source(pkg string) (src, check string) {
 		expect("Box[Named].V", "new(Box[Named])", []string{"V"}, []string{"the boxed value"}, true)
 		expect("Named", "new(Named)", nil, []string{"is a defined string."}, true)
 		fmt.Fprintf(&cb, "\tchecks++\n\tif verifkit.HasRuntimeDoc(new(hidden)) {\n\t\tfails = append(fails, \"unexported type hidden is covered\")\n\t}\n")
+	case "several-embedded-structs-first-one-documented":
+		// only fields of the UNdocumented embeds are asked for (a documented embed prefixes its answers: unspecified)
+		b.WriteString(td("T") + "type T struct {\n\t// meta:\n\tMeta\n\tAudit\n\t*Stamp\n" + fd("F") + "\tF int\n}\n\n// Meta is embedded with a doc.\ntype Meta struct {\n\t// of meta\n\tM int\n}\n\n// Audit is embedded without a doc.\ntype Audit struct {\n" + fd("By") + "\tBy string\n}\n\n// Stamp is embedded by pointer without a doc.\ntype Stamp struct {\n" + fd("At") + "\tAt int\n}\n")
+		expect("T", "&T{Stamp: new(Stamp)}", nil, typeDoc("T"), true)
+		expect("T.F", "&T{Stamp: new(Stamp)}", []string{"F"}, fieldDoc("F"), true)
+		expect("T.By (delegated to the undocumented embed Audit)", "&T{Stamp: new(Stamp)}", []string{"By"}, fieldDoc("By"), true)
+		expect("T.At (delegated to the undocumented embedded pointer Stamp)", "&T{Stamp: new(Stamp)}", []string{"At"}, fieldDoc("At"), true)
+		expect("T.NoSuch", "&T{Stamp: new(Stamp)}", []string{"NoSuch"}, nil, false)
 	case "embeds-unexported-and-non-struct":
 		b.WriteString(td("T") + "type T struct {\n\tinner\n\tStr\n" + fd("F") + "\tF int\n}\n\ntype inner struct {\n\t// IF doc\n\tIF int\n}\n\n// Str is a defined string.\ntype Str string\n")
 		expect("T", "new(T)", nil, typeDoc("T"), true)
@@ -354,7 +363,7 @@ func replay(c *core.Ctx, raw json.RawMessage) {
 func init() {
 	core.Register(&core.Prop{
 		ID: "C16", Level: "model_checking", Run: run, Replay: replay, Shards: 4,
-		Rule: "12 type shapes (exported/unexported/generic structs, embedding by value and by pointer, only-unexported fields, defined string/map/slice/func, interface, anonymous/empty/foreign/pointer field types, embedding of unexported and non-struct types) x 14 type-doc texts x 11 field-doc texts (quotes, backslashes, backquotes, %, @name', Unicode, blank line, tag line, leading name, name twice, longer word with the name as prefix); thorough: full product, quick: the diagonal + everything against none/plain/leading-name + a third of the rest. Each package is generated twice (byte-identical), compiled with the package and a harness-written check file, and run: RuntimeDoc() and RuntimeDoc(name) for every field, delegated field and unknown name vs the doc lines the harness wrote. Non-trivial = some doc text present; states = (shape, failed?)",
+		Rule: "13 type shapes (exported/unexported/generic structs, embedding by value and by pointer, only-unexported fields, defined string/map/slice/func, interface, anonymous/empty/foreign/pointer field types, embedding of unexported and non-struct types) x 14 type-doc texts x 11 field-doc texts (quotes, backslashes, backquotes, %, @name', Unicode, blank line, tag line, leading name, name twice, longer word with the name as prefix); thorough: full product, quick: the diagonal + everything against none/plain/leading-name + a third of the rest. Each package is generated twice (byte-identical), compiled with the package and a harness-written check file, and run: RuntimeDoc() and RuntimeDoc(name) for every field, delegated field and unknown name vs the doc lines the harness wrote. Non-trivial = some doc text present; states = (shape, failed?)",
 		Assumptions: []string{
 			"field docs starting with the field name, embedded fields with their own doc, [[embed]] lines and lines starting with go: are outside the alphabet",
 			"'leading type name removed' is read as: the first word is the name",
